@@ -1,4 +1,5 @@
 import TTModel.C03_Rescale
+import TTProofs.Lemmas.C03_Rescale
 import TTModel.C01_Tree
 import TTProofs.Lemmas.C01_Pruning
 import TTProofs.Lemmas.C01_Tree
@@ -124,5 +125,94 @@ theorem wf_postorder_setupIndexes (n : Nat) (l r : TT.C01.BTree)
   unfold wf
   rw [h, hroot]
   simp [wfAux]
+
+end TT.C03
+
+/-! ### the plain loop of C03 computes what C01's loop computes
+
+C01 models `calculate_treelikelihood_discrete` for ONE site with `None` slots (`Option`); C03 for all
+sites with total slots.  Whenever C01's loop succeeds (never reads `None`), its value at site `n` is
+the C03 plain site value — so everything C01 / C12 prove about `TT.C01.siteLik` (equality with the
+marginal over all labelings, derivative in a branch length) is a statement about `TT.C03.siteLik …
+(peel …)`, and through `rescaled_eq_plain` / `hasDerivAt_rescaled_iff_plain` about the rescaled and
+safe passes. -/
+namespace TT.C03
+
+section link
+variable {F : Type} [Field F] {N K S : Nat}
+
+/-- C01's `Option` list agrees at site `n` with the C03 list wherever it is set -/
+def RelC01 (n : Fin N) (st1 : TT.C01.Store F K S) (st : Store F N K S) : Prop :=
+  ∀ j v, st1 j = some v → ∀ k s, v k s = (st.get j).get n k s
+
+theorem relC01_step (mats : Mats F K S) (n : Fin N) (st1 st1' : TT.C01.Store F K S) (st : Store F N K S)
+    (t : Triple) (hR : RelC01 n st1 st) (h : TT.C01.peelStep mats st1 t = some st1') :
+    RelC01 n st1' (peelStep 0 noTips mats st t) := by
+  unfold TT.C01.peelStep at h
+  split at h
+  · rename_i pl pr hl hr
+    simp only [Option.some.injEq] at h
+    subst h
+    intro j v hv k s
+    unfold TT.C01.Store.set at hv
+    unfold peelStep
+    simp only [Store.get_set]
+    by_cases hj : j = t.1
+    · simp only [hj, if_true, Option.some.injEq] at hv
+      subst hv
+      simp only [hj, if_true, combine_get, contrib, Nat.not_lt_zero, if_false, TT.C01.Tab.get_ofFn,
+        TT.C01.matVec]
+      have e1 : (fun a => mats t.2.1 k s a * pl k a) = fun a => mats t.2.1 k s a * (st.get t.2.1).get n k a :=
+        funext fun a => by rw [hR _ _ hl k a]
+      have e2 : (fun a => mats t.2.2 k s a * pr k a) = fun a => mats t.2.2 k s a * (st.get t.2.2).get n k a :=
+        funext fun a => by rw [hR _ _ hr k a]
+      rw [e1, e2]
+    · simp only [hj, if_false] at hv ⊢
+      exact hR j v hv k s
+  · cases h
+
+theorem relC01_loop (mats : Mats F K S) (n : Fin N) :
+    ∀ (ts : List Triple) (st1 st1' : TT.C01.Store F K S) (st : Store F N K S),
+      RelC01 n st1 st → TT.C01.peelLoop mats ts st1 = some st1' → RelC01 n st1' (peel 0 noTips mats st ts)
+  | [], st1, st1', st, hR, h => by
+      simp only [TT.C01.peelLoop, Option.some.injEq] at h
+      subst h; exact hR
+  | t :: ts, st1, st1', st, hR, h => by
+      unfold TT.C01.peelLoop at h
+      split at h
+      · rename_i st1'' hs
+        exact relC01_loop mats n ts st1'' st1' _ (relC01_step mats n st1 st1'' st t hR hs) h
+      · cases h
+
+/-- **C03's plain site value is C01's `siteLik`** (for one site `n` of the C03 model) -/
+theorem siteLik_eq_C01 (π : Fin S → F) (props : Fin K → F) (mats : Mats F K S) (ts : List Triple)
+    (nT : Nat) (tips : Nat → Fin N → Fin S → F) (n : Fin N) (x : F)
+    (h : TT.C01.siteLik π props mats ts nT (fun i s => tips i n s) = some x) :
+    x = siteLik π props ((peel 0 noTips mats (tipStore tips) ts).get (rootOf ts)) n := by
+  unfold TT.C01.siteLik TT.C01.rootPartial at h
+  have hR0 : RelC01 n (TT.C01.tipStore (K := K) nT fun i s => tips i n s) (tipStore tips) := by
+    intro j v hv k s
+    unfold TT.C01.tipStore at hv
+    split at hv
+    · simp only [Option.some.injEq] at hv
+      subst hv
+      simp [tipStore]
+    · cases hv
+  split at h
+  · rename_i st' last hloop hlast
+    have hR := relC01_loop mats n ts _ st' (tipStore tips) hR0 hloop
+    have hroot : rootOf ts = last.1 := by simp [rootOf, hlast]
+    cases hv : st' last.1 with
+    | none => simp [hv] at h
+    | some v =>
+      simp only [hv, Option.map_some, Option.some.injEq] at h
+      subst h
+      unfold TT.C01.rootSum siteLik
+      rw [hroot]
+      congr 1; funext s; congr 1; congr 1; funext k
+      rw [hR _ v hv k s]
+  · simp at h
+
+end link
 
 end TT.C03
